@@ -15,7 +15,10 @@ use super::try_sync_error::*;
 
 use std::fmt;
 use std::mem;
+#[cfg(not(desync_verif))]
 use std::sync::*;
+#[cfg(desync_verif)]
+use vsched::sync::*;
 use std::collections::vec_deque::*;
 use std::result::{Result};
 
@@ -28,6 +31,9 @@ use num_cpus;
 
 #[cfg(not(target_arch = "wasm32"))]
 const MIN_THREADS: usize = 8;
+
+#[cfg(desync_verif)]
+use vsched::lazy_static;
 
 lazy_static! {
     static ref SCHEDULER: Arc<Scheduler> = Arc::new(Scheduler::new());
